@@ -586,6 +586,8 @@ class ParserBinary(ParserBase):
 
         mpint_length, parsed_length = self._parse_numeric_array(name, 1, 4, int)
         mpint_length = mpint_length[0]
+        if mpint_length > self.unparsed_length - 4:
+            raise NotEnoughData(bytes_needed=mpint_length + 4 - self.unparsed_length)
 
         negative = (mpint_length and (six.indexbytes(self._parsable, self._parsed_length + 4) >= 0x80))
 
